@@ -284,14 +284,33 @@ static Json doBigArr3(const Json &arg)
     o.set("num_elements", toLimbs(a.numElements()));
     o.set("index_of", toLimbs(a.indexOf(c)));
     a.set(c, (unsigned char)0x5A);
-    std::vector<unsigned char> vec(len / page);
     Json offs = Json::array();
-    if (mincore(mem, len, vec.data()) == 0) {
-      for (size_t p = 0; p < vec.size(); ++p) {
-        if (!(vec[p] & 1)) continue;
-        const unsigned char *q = (const unsigned char *)mem + p * page;
-        for (size_t k = 0; k < page; ++k)
-          if (q[k] == 0x5A) offs.push(toLimbs((unsigned long long)(p * page + k)));
+    auto scanPage = [&](size_t p) {
+      const unsigned char *q = (const unsigned char *)mem + p * page;
+      for (size_t k = 0; k < page; ++k)
+        if (q[k] == 0x5A) offs.push(toLimbs((unsigned long long)(p * page + k)));
+    };
+    if (!getenv("VERIF_C17_PAGEMAP")) {  // (the variable forces the fallback below, to test it)
+      std::vector<unsigned char> vec(len / page);
+      if (mincore(mem, len, vec.data()) == 0)
+        for (size_t p = 0; p < vec.size(); ++p)
+          if (vec[p] & 1) scanPage(p);
+    }
+    if (offs.size() == 0) {
+      // the touched page may have been swapped out under memory pressure: /proc/self/pagemap
+      // marks touched pages as present (bit 63) or swapped (bit 62)
+      int pm = open("/proc/self/pagemap", O_RDONLY);
+      if (pm >= 0) {
+        std::vector<uint64_t> ent(1 << 16);
+        const size_t first = (size_t)((uintptr_t)mem / page), npages = len / page;
+        for (size_t p = 0; p < npages; p += ent.size()) {
+          const size_t n = std::min(ent.size(), npages - p);
+          ssize_t got = pread(pm, ent.data(), n * 8, (off_t)((first + p) * 8));
+          if (got <= 0) break;
+          for (size_t k = 0; k < (size_t)got / 8; ++k)
+            if (ent[k] >> 62) scanPage(p + k);
+        }
+        close(pm);
       }
     }
     if (offs.size() == 1) o.set("set_offset", offs[(size_t)0]);
